@@ -78,23 +78,23 @@ o.lines[c0:c0] = __import__('ann').ghost('#[verifier::rlimit(80)]')
 c0 = o.find('fn conquer<Old, New, D>(')
 o.before('{', '''
     requires
-        diff_pre(*vstd::prelude::old(d), old, old_range, new, new_range),
+        diff_pre(*vstd::prelude::old(d), old, old_range, new, new_range, alg_lvl(deadline)),
         v_ok(vstd::prelude::old(vf), old_range, new_range), v_ok(vstd::prelude::old(vb), old_range, new_range),
     ensures
         err_post(*vstd::prelude::old(d), *final(d), res),
-        seg_post(*vstd::prelude::old(d), *final(d), old, old_range, new, new_range, Seq::<Ev>::empty(), res.is_ok()),
+        seg_post(*vstd::prelude::old(d), *final(d), old, old_range, new, new_range, alg_lvl(deadline), Seq::<Ev>::empty(), res.is_ok()),
         final(vf).wf(), final(vf).offset == vstd::prelude::old(vf).offset, final(vb).wf(), final(vb).offset == vstd::prelude::old(vb).offset,
     decreases (old_range.end - old_range.start) + (new_range.end - new_range.start),
 ''', start=c0)
 o.after('{', '''
 broadcast use {axiom_pure_index, axiom_pure_eq};
-let ghost rel = rel_of(old, new);
+let ghost rel = rel_of(old, new); let ghost lvl = alg_lvl(deadline);
 let ghost o0 = old_range.start as int; let ghost n0 = new_range.start as int;
 let ghost oe0 = old_range.end as int; let ghost ne0 = new_range.end as int;
 let ghost d0 = *d; let ghost t0 = d.trace(); let ghost rs0 = d.rely_st(); let ghost r1 = d.rely_rel();
 let ghost mut s: Seq<Ev> = Seq::empty();
 let ghost mut oc: int = o0; let ghost mut nc: int = n0;
-proof { lemma_seg_empty(rel, o0, n0); lemma_run_empty(r1, rs0); assert(t0 + s =~= t0); assert(alg_inv(*d, d0, t0, s, rel, rs0, o0, n0, oc, nc)); }
+proof { lemma_seg_empty(rel, lvl, o0, n0); lemma_run_empty(r1, rs0); assert(t0 + s =~= t0); assert(alg_inv(*d, d0, t0, s, rel, lvl, rs0, o0, n0, oc, nc)); }
 ''', start=c0, stmt=False, ind='    ')
 
 def call(o, start, pat, ev, adv, nth=1):
@@ -103,13 +103,13 @@ def call(o, start, pat, ev, adv, nth=1):
     ind = o.indent_of(i)
     import ann
     pre = ann.ghost('''
-proof { let e = %s; if d0.relies() { pre_call(rel, r1, s, e, o0, n0, oc, nc, rs0); } }
+proof { let e = %s; if d0.relies() { pre_call(rel, r1, lvl, s, e, o0, n0, oc, nc, rs0); } }
 ''' % ev, ind)
     o.lines[i:i] = pre
     j = o.stmt_end(i + len(pre))
     post = ann.ghost('''
-proof { let e = %s; post_call(rel, r1, s, e, o0, n0, oc, nc, rs0); assert((t0 + s).push(e) =~= t0 + s.push(e)); s = s.push(e); %s
-    assert(alg_inv(*d, d0, t0, s, rel, rs0, o0, n0, oc, nc)); }
+proof { let e = %s; post_call(rel, r1, lvl, s, e, o0, n0, oc, nc, rs0); assert((t0 + s).push(e) =~= t0 + s.push(e)); s = s.push(e); %s
+    assert(alg_inv(*d, d0, t0, s, rel, lvl, rs0, o0, n0, oc, nc)); }
 ''' % (ev, adv), ind)
     o.lines[j+1:j+1] = post
     return j + 1 + len(post)
@@ -128,19 +128,19 @@ for which, rng in (('old_a', 'a'), ('old_b', 'b')):
     import ann
     pre = ann.ghost('''
 let ghost tm = d.trace(); let ghost rm = d.rely_st(); let ghost dm = *d;
-proof { if d0.relies() { lemma_seg_any(rel, r1, s, o0, n0, oc, nc, rs0); lemma_mono(r1, rs0, s); } }
+proof { if d0.relies() { lemma_seg_any(rel, r1, lvl, s, o0, n0, oc, nc, rs0); lemma_mono(r1, rs0, s); } }
 ''', ind)
     o.lines[i:i] = pre
     j = i + len(pre)
     post = ann.ghost('''
 proof {
-    let sa = choose|q: Seq<Ev>| #[trigger] seg(old, new, q, old_%(r)s.start as int, new_%(r)s.start as int, old_%(r)s.end as int, new_%(r)s.end as int)
+    let sa = choose|q: Seq<Ev>| #[trigger] seg(old, new, lvl, q, old_%(r)s.start as int, new_%(r)s.start as int, old_%(r)s.end as int, new_%(r)s.end as int)
         && d.trace() == tm + q + Seq::<Ev>::empty() && (dm.relies() ==> d.rely_st() == run_rel(dm.rely_rel(), rm, q));
-    lemma_seg_concat(rel, s, sa, o0, n0, oc, nc, old_%(r)s.end as int, new_%(r)s.end as int);
+    lemma_seg_concat(rel, lvl, s, sa, o0, n0, oc, nc, old_%(r)s.end as int, new_%(r)s.end as int);
     lemma_run_concat(r1, rs0, s, sa);
     assert((t0 + s) + sa + Seq::<Ev>::empty() =~= t0 + (s + sa));
     s = s + sa; oc = old_%(r)s.end as int; nc = new_%(r)s.end as int;
-    assert(alg_inv(*d, d0, t0, s, rel, rs0, o0, n0, oc, nc));
+    assert(alg_inv(*d, d0, t0, s, rel, lvl, rs0, o0, n0, oc, nc));
 }
 ''' % {'r': rng}, ind)
     o.lines[j+1:j+1] = post
@@ -153,28 +153,29 @@ p = call(o, p, 'd.equal(common_suffix.0, common_suffix.1, common_suffix_len)?;',
 i = o.find('Ok(())', p)
 o.lines[i:i] = __import__('ann').ghost('''
 proof {
-    assert(alg_inv(*d, d0, t0, s, rel, rs0, o0, n0, oc, nc));
+    assert(alg_inv(*d, d0, t0, s, rel, lvl, rs0, o0, n0, oc, nc));
     assert(oc == oe0 && nc == ne0);
     assert(t0 + s + Seq::<Ev>::empty() =~= t0 + s);
-    assert(seg(old, new, s, o0, n0, oe0, ne0));
+    assert(seg(old, new, lvl, s, o0, n0, oe0, ne0));
 }
 ''', '    ')
 
 # ---- diff_deadline / diff
 dd = o.find('pub fn diff_deadline<Old, New, D>(')
 o.before('{', '''
-    requires diff_pre(*vstd::prelude::old(d), old, old_range, new, new_range),
+    requires diff_pre(*vstd::prelude::old(d), old, old_range, new, new_range, alg_lvl(deadline)),
     ensures
         err_post(*vstd::prelude::old(d), *final(d), res),
-        seg_post(*vstd::prelude::old(d), *final(d), old, old_range, new, new_range, fin::<D>(), res.is_ok()),
+        seg_post(*vstd::prelude::old(d), *final(d), old, old_range, new, new_range, alg_lvl(deadline), fin::<D>(), res.is_ok()),
 ''', start=dd)
 i = o.find('d.finish()', dd)
 o.lines[i:i] = __import__('ann').ghost('''
 proof {
+    let lvl = alg_lvl(deadline);
     let d0 = *vstd::prelude::old(d);
-    let sa = choose|q: Seq<Ev>| #[trigger] seg(old, new, q, old_range.start as int, new_range.start as int, old_range.end as int, new_range.end as int)
+    let sa = choose|q: Seq<Ev>| #[trigger] seg(old, new, lvl, q, old_range.start as int, new_range.start as int, old_range.end as int, new_range.end as int)
         && d.trace() == d0.trace() + q + Seq::<Ev>::empty() && (d0.relies() ==> d.rely_st() == run_rel(d0.rely_rel(), d0.rely_st(), q));
-    if d0.relies() { lemma_seg_any(rel_of(old, new), d0.rely_rel(), sa, old_range.start as int, new_range.start as int, old_range.end as int, new_range.end as int, d0.rely_st()); }
+    if d0.relies() { lemma_seg_any(rel_of(old, new), d0.rely_rel(), lvl, sa, old_range.start as int, new_range.start as int, old_range.end as int, new_range.end as int, d0.rely_st()); }
     assert(d0.trace() + sa + Seq::<Ev>::empty() + fin::<D>() =~= d0.trace() + sa + fin::<D>());
     assert(sa + Seq::<Ev>::empty() =~= sa);
     lemma_run_fin::<D>(d0.rely_rel(), d0.rely_st(), sa);
@@ -182,9 +183,9 @@ proof {
 ''', '    ')
 df = o.find('pub fn diff<Old, New, D>(')
 o.before('{', '''
-    requires diff_pre(*vstd::prelude::old(d), old, old_range, new, new_range),
+    requires diff_pre(*vstd::prelude::old(d), old, old_range, new, new_range, alg_lvl(None)),
     ensures
         err_post(*vstd::prelude::old(d), *final(d), res),
-        seg_post(*vstd::prelude::old(d), *final(d), old, old_range, new, new_range, fin::<D>(), res.is_ok()),
+        seg_post(*vstd::prelude::old(d), *final(d), old, old_range, new, new_range, alg_lvl(None), fin::<D>(), res.is_ok()),
 ''', start=df)
 o.save()
